@@ -1,6 +1,6 @@
 (* Core/ChannelAssign.v — key assignment (retrieveExistingAndAssignKeys): every new channel gets a
    local key strictly above the old counter value and at most the new one, all different. *)
-From stdpp Require Import gmap strings.
+From stdpp Require Import gmap strings sorting.
 From Coq Require Import NArith Lia.
 From Synnax Require Import Generated.Consts_C15 Core.Channel.
 Local Open Scope N_scope.
@@ -71,6 +71,10 @@ Proof.
   intros [= <-]. apply (IH j eq_refl).
 Qed.
 
+Lemma in_snd_cons {A B} (k : A) (e : B) ex c :
+  c = e \/ c ∈ (snd <$> ex) -> c ∈ (snd <$> ((k, e) :: ex)).
+Proof. rewrite fmap_cons. simpl. intros [->|H]; [left|right; assumption]. Qed.
+
 Lemma apply_existing_inv names : forall existing chs inc R chs' inc',
   length names = length chs ->
   Forall (fun kc => zero_key kc.2 = false) existing ->
@@ -93,31 +97,34 @@ Proof.
           apply elem_of_cons in Hj as [?|?]; [congruence|assumption]. }
       simpl. destruct (decide (i ∈ R)) as [HiR|HiR].
       * rewrite bool_decide_true by assumption. intros Happ.
-        apply IH in Happ; try assumption.
-        -- destruct Happ as (H1 & H2 & H3 & H4). rewrite insert_length in H1. repeat split; try assumption.
-           intros c Hc. destruct (H4 c Hc) as [Hin|Hin]; [|right; rewrite fmap_cons; right; assumption].
-           apply elem_of_list_lookup in Hin as (j & Hj). destruct (decide (j = i)) as [->|Hne].
-           ++ rewrite list_lookup_insert in Hj by assumption. injection Hj as <-. right. rewrite fmap_cons. left.
-           ++ rewrite list_lookup_insert_ne in Hj by congruence. left. eapply elem_of_list_lookup_2; eassumption.
-        -- rewrite insert_length; assumption.
-        -- intros j Hj. apply Hins. right. assumption.
-        -- rewrite insert_length. assumption.
+        assert (Hlen' : length names = length (<[i:=e]> chs)) by (rewrite insert_length; assumption).
+        assert (HR' : forall j, j ∈ R -> exists c, <[i:=e]> chs !! j = Some c /\ zero_key c = false)
+          by (intros j Hj; apply Hins; right; assumption).
+        assert (Hinc' : N.of_nat (length (<[i:=e]> chs)) <= inc + N.of_nat (length R))
+          by (rewrite insert_length; assumption).
+        destruct (IH _ _ _ _ _ Hlen' Hall' Hnd HR' Hinc' Happ) as (H1 & H2 & H3 & H4).
+        rewrite insert_length in H1. repeat split; try assumption.
+        intros c Hc. destruct (H4 c Hc) as [Hin|Hin]; [|right; apply (in_snd_cons k); right; assumption].
+        apply elem_of_list_lookup in Hin as (j & Hj). destruct (decide (j = i)) as [->|Hne].
+        -- rewrite list_lookup_insert in Hj by assumption. injection Hj as <-. right. apply (in_snd_cons k). left. reflexivity.
+        -- rewrite list_lookup_insert_ne in Hj by congruence. left. eapply elem_of_list_lookup_2; eassumption.
       * rewrite bool_decide_false by assumption. intros Happ.
-        apply IH in Happ; try assumption.
-        -- destruct Happ as (H1 & H2 & H3 & H4). rewrite insert_length in H1. repeat split; try assumption.
-           ++ destruct (inc =? 0) eqn:E0; [apply N.eqb_eq in E0|]; lia.
-           ++ intros c Hc. destruct (H4 c Hc) as [Hin|Hin]; [|right; rewrite fmap_cons; right; assumption].
-              apply elem_of_list_lookup in Hin as (j & Hj). destruct (decide (j = i)) as [->|Hne].
-              ** rewrite list_lookup_insert in Hj by assumption. injection Hj as <-. right. rewrite fmap_cons. left.
-              ** rewrite list_lookup_insert_ne in Hj by congruence. left. eapply elem_of_list_lookup_2; eassumption.
-        -- rewrite insert_length; assumption.
-        -- constructor; assumption.
-        -- assumption.
-        -- rewrite insert_length. simpl length.
-           destruct (inc =? 0) eqn:E0; [apply N.eqb_eq in E0|apply N.eqb_neq in E0]; lia.
+        assert (Hnd' : NoDup (i :: R)) by (constructor; assumption).
+        assert (Hlen' : length names = length (<[i:=e]> chs)) by (rewrite insert_length; assumption).
+        assert (Hinc' : N.of_nat (length (<[i:=e]> chs)) <=
+                        (if inc =? 0 then 0 else inc - 1) + N.of_nat (length (i :: R))).
+        { rewrite insert_length. simpl length.
+          destruct (inc =? 0) eqn:E0; [apply N.eqb_eq in E0|apply N.eqb_neq in E0]; lia. }
+        destruct (IH _ _ _ _ _ Hlen' Hall' Hnd' Hins Hinc' Happ) as (H1 & H2 & H3 & H4).
+        rewrite insert_length in H1. repeat split; try assumption.
+        -- destruct (inc =? 0) eqn:E0; [apply N.eqb_eq in E0|]; lia.
+        -- intros c Hc. destruct (H4 c Hc) as [Hin|Hin]; [|right; apply (in_snd_cons k); right; assumption].
+           apply elem_of_list_lookup in Hin as (j & Hj). destruct (decide (j = i)) as [->|Hne].
+           ++ rewrite list_lookup_insert in Hj by assumption. injection Hj as <-. right. apply (in_snd_cons k). left. reflexivity.
+           ++ rewrite list_lookup_insert_ne in Hj by congruence. left. eapply elem_of_list_lookup_2; eassumption.
     + intros Happ. apply IH in Happ; try assumption.
       destruct Happ as (H1 & H2 & H3 & H4). repeat split; try assumption.
-      intros c Hc. destruct (H4 c Hc); [left; assumption|right; rewrite fmap_cons; right; assumption].
+      intros c Hc. destruct (H4 c Hc); [left; assumption|right; apply (in_snd_cons k); right; assumption].
 Qed.
 
 (* ---- assign_keys *)
@@ -170,3 +177,89 @@ Proof.
         -- destruct (Hold c' Hc') as [?|(Hz & c0 & Hc0 & ?)]; [left; assumption|].
            right. split; [assumption|]. exists c0. split; [right; assumption|assumption].
 Qed.
+
+(* ---- name lookups return rows of the table *)
+Lemma sorted_tab_elem (t : table) k c : (k, c) ∈ sorted_tab t <-> t !! k = Some c.
+Proof.
+  unfold sorted_tab. rewrite merge_sort_Permutation. apply elem_of_map_to_list.
+Qed.
+Lemma holders_elem t n k c : (k, c) ∈ holders t n -> t !! k = Some c /\ c_name c = n.
+Proof.
+  unfold holders. rewrite elem_of_list_filter. intros [Hn Hin]. split; [|exact Hn].
+  apply sorted_tab_elem. exact Hin.
+Qed.
+Lemma lookup_names_sound t names ex amb :
+  lookup_names t names = (ex, amb) -> forall k c, (k, c) ∈ ex -> t !! k = Some c.
+Proof.
+  unfold lookup_names. destruct (_ && forallb valid_name names); intros [= <- _] k c Hin.
+  - apply elem_of_list_In, in_flat_map in Hin as (n & _ & Hin). apply elem_of_list_In in Hin.
+    apply holders_elem in Hin. tauto.
+  - apply elem_of_list_filter in Hin as [_ Hin]. apply sorted_tab_elem. exact Hin.
+Qed.
+
+Definition tab_pos (t : table) : Prop := forall k c, t !! k = Some c -> zero_key c = false.
+
+Lemma ctr_add_spec v d v' : ctr_add v d = Some v' -> v' = v + d /\ v' <= max_local.
+Proof.
+  unfold ctr_add. destruct (max_local <? v + d) eqn:E; [discriminate|].
+  intros [= <-]. apply N.ltb_ge in E. auto.
+Qed.
+
+(* retrieveExistingAndAssignKeys on the tree with fix F44 *)
+Lemma retrieve_assign_spec t ctr chs retr er ctr' chs2 created amb :
+  tab_pos t ->
+  retrieve_assign true t ctr chs retr = (er, ctr', chs2, created, amb) ->
+  (er <> EOk -> created = [] /\ ctr' = ctr) /\
+  (er = EOk -> ctr <= ctr' /\ ctr' <= max_local /\
+     forall j c, created !! j = Some c ->
+       exists c0, c0 ∈ chs /\ keyed_from c0 c (ctr + N.of_nat j + 1) /\ ctr + N.of_nat j + 1 <= ctr').
+Proof.
+  intros Hpos. unfold retrieve_assign.
+  set (names := c_name <$> chs).
+  destruct (if retr then _ else _) as [[chs1 inc] amb0] eqn:E1.
+  assert (H1 : N.of_nat (zeros chs1) <= inc /\ inc <= N.of_nat (length chs) /\
+               forall c, c ∈ chs1 -> zero_key c = true -> c ∈ chs).
+  { destruct retr.
+    - destruct (lookup_names t names) as [ex amb1] eqn:El.
+      destruct (apply_existing true names ex chs (N.of_nat (length chs)) []) as [c1 i1] eqn:Ea.
+      injection E1 as <- <- <-.
+      assert (Hex : Forall (fun kc => zero_key kc.2 = false) ex).
+      { apply Forall_forall. intros [k c] Hin. simpl. eapply Hpos, lookup_names_sound; eassumption. }
+      eapply apply_existing_inv in Ea as (Hl & Hz & Hle & Hfrom); try eassumption.
+      + split; [assumption|]. split; [assumption|].
+        intros c Hc Hzero. destruct (Hfrom c Hc) as [?|Hin]; [assumption|].
+        apply elem_of_list_fmap in Hin as ([k c'] & -> & Hin). simpl in Hzero.
+        rewrite Forall_forall in Hex. specialize (Hex _ Hin). simpl in Hex. congruence.
+      + unfold names. rewrite fmap_length. reflexivity.
+      + constructor.
+      + intros i Hi. inversion Hi.
+      + simpl. lia.
+    - injection E1 as <- <- <-. split; [|split; [lia|auto]].
+      pose proof (zeros_le chs [] (NoDup_nil_2) (fun i Hi => match (not_elem_of_nil i) Hi with end)).
+      simpl in H. lia. }
+  destruct H1 as (Hz & Hinc & Hfrom).
+  destruct (ctr_add ctr inc) as [next|] eqn:Ec.
+  - destruct (assign_keys (next - inc) chs1 []) as [c2 cr] eqn:Ea. intros [= <- <- <- <- <-].
+    apply ctr_add_spec in Ec as [-> Hmax].
+    split; [congruence|]. intros _. split; [lia|]. split; [assumption|].
+    apply assign_keys_spec in Ea as (new & -> & Hlen & _ & Hnew & _). simpl.
+    intros j c Hj. destruct (Hnew j c Hj) as (c0 & Hc0 & Hk & _).
+    replace (ctr + inc - inc) with ctr in Hk by lia. simpl in Hk.
+    exists c0. split; [apply Hfrom; [assumption|]; unfold zero_key; destruct Hk as [-> _]; reflexivity|].
+    split; [assumption|].
+    apply lookup_lt_Some in Hj. rewrite Hlen in Hj. lia.
+  - intros [= <- <- <- <- <-]. split; [auto|congruence].
+Qed.
+
+(* the pinned upstream code (before fix F44): two existing channels of one requested name make
+   the counter advance by less than the number of keys handed out *)
+Definition f44_tab : table :=
+  list_to_map [(new_key node_free 5, Chan "x" node_free 2 false 5 0 true false 0);
+               (new_key node_free 6, Chan "x" node_free 2 false 6 0 true false 0)].
+Definition f44_req : list chan :=
+  [Chan "x" node_free 2 false 0 0 true false 0; Chan "y" node_free 2 false 0 0 true false 0].
+Lemma retrieve_assign_unfixed_refuted :
+  match retrieve_assign false f44_tab 6 f44_req true with
+  | (er, ctr', _, created, _) => er = EOk /\ ctr' = 6 /\ (c_lkey <$> created) = [7]
+  end.
+Proof. vm_compute. repeat split; reflexivity. Qed.
